@@ -216,8 +216,8 @@ package bttest
 
 // Read protocol (C06), see /verif/contracts/trusted/bttest_ifaces.spec: the epoch of the critical section in which
 // the current thread last read a row from the store, and the identity of that row object.
-//@ ghostvar btReadEpoch epoch
-//@ ghostvar btReadRow int
+//@ ghostvar btReadEpoch epoch protocol
+//@ ghostvar btReadRow int protocol
 
 //@ func (t *table) getOrCreateRow
 //@   property C01 C06
